@@ -49,7 +49,7 @@ EXACT_TOL = 1e-9
 # twice (each ±5e-9, amplified by 2|X|·d in the spectra): 5e-7·max(1,|a|,|b|) bounds both
 FLOAT_TOL = 5e-7
 MON_TOL = 2e-6
-GAP_MIN = 1e-4      # relative gap between distinct |q|² keys below which the groupby is not judged
+GAP_MIN = 1e-6      # relative gap between distinct |q|² keys below which the groupby is not judged (the code groups |q| at 1e-8)
 TIE_MIN = 1e-3      # distance of |q|·1e8 from a rounding tie below which the groupby is not judged
 
 
@@ -253,6 +253,9 @@ def gen_dec(rng, edge=False):
         L = [dec(rng, 3, 9, 2)] * d
     else:
         L = [dec(rng, 3, 9, 2) for _ in range(d)]
+    if rng.random() < 0.2:
+        # nearly equal edges: the shells of (1,0,…) and (0,1,…) differ by ~1e-5 in |q| — distinct, not to be averaged together
+        L = [L[0]] + [format(float(Fraction(L[0]) + Fraction(rng.choice([4, 7, 10, -5, 12]), 10 ** 4) * j), ".4f") for j in range(1, d)]
     pos = gen_positions(rng, N, d, L)
     kind, v, A = gen_field(rng, N, d, pos)
     nq = rng.randint(1, 7)
